@@ -224,7 +224,7 @@ impl Check for C17 {
         v
     }
     fn workloads(&self) -> Vec<Workload> {
-        vec![Workload { name: "arena-churn+battery", quick: 2500, thorough: 150_000 }, Workload { name: "long-history+battery", quick: 60, thorough: 3000 }, Workload { name: "send-window-recovery", quick: if cfg!(miri) { 20 } else { 1200 }, thorough: if cfg!(miri) { 20 } else { 400_000 } }, Workload { name: "graceful-close-on-a-full-arena", quick: if cfg!(miri) { 10 } else { 1500 }, thorough: if cfg!(miri) { 10 } else { 150_000 } }, Workload { name: "identifier-wrap", quick: if cfg!(miri) { 2 } else { 400 }, thorough: if cfg!(miri) { 2 } else { 40_000 } }]
+        vec![Workload { name: "arena-churn+battery", quick: 2500, thorough: 150_000 }, Workload { name: "long-history+battery", quick: 60, thorough: 3000 }, Workload { name: "send-window-recovery", quick: if cfg!(miri) { 20 } else { 1200 }, thorough: if cfg!(miri) { 20 } else { 400_000 } }, Workload { name: "graceful-close-on-a-full-arena", quick: if cfg!(miri) { 10 } else { 1500 }, thorough: if cfg!(miri) { 10 } else { 150_000 } }, Workload { name: "identifier-wrap", quick: if cfg!(miri) { 2 } else { 400 }, thorough: if cfg!(miri) { 2 } else { 40_000 } }, Workload { name: "pooled-scripts", quick: if cfg!(miri) { 2 } else { crate::checks::POOLED.0 }, thorough: if cfg!(miri) { 2 } else { crate::checks::POOLED.1 } }]
     }
     fn min_nontrivial(&self, tier: Tier) -> usize {
         if tier == Tier::Quick { 200 } else { 2000 }
@@ -240,6 +240,16 @@ impl Check for C17 {
         }
         if workload == 3 {
             return close_on_full_arena(&mut rng, seed, verbose);
+        }
+        if workload == 5 {
+            // the scripted scenarios of the other checks, judged by the integrity rules
+            let (cfg, steps) = crate::scripts::pooled_script(&mut rng, _index, tier);
+            let (log, world) = crate::checks::run_script(&cfg, steps, seed);
+            let w = world.borrow();
+            let t = Trace::new(&log, &w);
+            let nt = m::c17::check(&t, &mut out);
+            crate::checks::finish_case("C17", &log, &w, &mut out, nt, verbose);
+            return out;
         }
         if workload == 4 {
             // the identifier counter comes round while long-lived operations hold identifiers on
